@@ -24,7 +24,8 @@ THEOREMS = ['Pyiga.Props.C18.' + t for t in (
     'squeeze_negative_axis_asCoded_wrong', 'pad_empty_axis_asCoded_raises',
     'faithful_nway_leaf', 'faithful_pad_leaf', 'operator_add', 'operator_neg', 'operator_sub', 'operator_T',
     'generator_getitem', 'faithful_tucker_to_can',
-    'gta_extend_orthonormal', 'gta_extend_skip_rule', 'gta_extend_noskip_not_orthonormal')]
+    'gta_extend_orthonormal', 'gta_extend_skip_rule', 'gta_extend_rank_le_size', 'gta_extend_noskip_not_orthonormal',
+    'gta_extend_absolute_appends_noise')]
 MODULES = ['Pyiga.Model.Tensor', 'Pyiga.Proofs.TensorBasic', 'Pyiga.Proofs.TensorArith', 'Pyiga.Proofs.TensorOps',
            'Pyiga.Proofs.TensorAdd', 'Pyiga.Proofs.TensorAddSpec', 'Pyiga.Proofs.TensorNway', 'Pyiga.Proofs.TensorPad', 'Pyiga.Proofs.TensorOperator', 'Pyiga.Proofs.TensorGen',
            'Pyiga.Proofs.TensorT2C', 'Pyiga.Proofs.TensorGreedy', 'Pyiga.Props.C18']
@@ -948,24 +949,27 @@ def _orth_defect(Us):
     return max(float(np.linalg.norm(U.T.dot(U) - np.eye(U.shape[1]))) for U in Us)
 
 
-def _replay_gta_bases(rec, thr=1e-14):
-    """the basis-extension loop of `gta` as coded (skip iff ny < 1e-14), replayed in the same float operations on
-    the recorded als1 outputs.  Returns (per-step norms, final ranks, a numerically-zero direction was appended)"""
+def _replay_gta_bases(rec):
+    """the basis-extension loop of `gta` / `gta_ls` as coded since 2f34e7d (skip iff ny <= 1e-10*||v|| or the basis is
+    complete), replayed in the same float operations on the recorded als1 / als1_ls outputs.
+    Returns (per-step (ny, nv) pairs, final ranks)"""
     U = [u[:, None] / np.linalg.norm(u) for u in rec[0]]
-    steps, zero_appended = [], False
+    steps = []
     for vs in rec[1:]:
         nys = []
         for j in range(len(U)):
             y = vs[j] - U[j].dot(U[j].T.dot(vs[j]))
-            ny = np.linalg.norm(y)
-            nys.append(float(ny))
-            if ny < thr:
+            ny = np.linalg.norm(y); nv = np.linalg.norm(vs[j])
+            nys.append((float(ny), float(nv)))
+            if ny <= 1e-10 * nv or U[j].shape[1] >= U[j].shape[0]:
                 continue
-            if ny <= 1e-10 * np.linalg.norm(vs[j]):
-                zero_appended = True      # only rounding noise is left: should have been skipped (relative test)
             U[j] = np.column_stack((U[j], y / ny))
         steps.append(nys)
-    return steps, [u.shape[1] for u in U], zero_appended
+    return steps, [u.shape[1] for u in U]
+
+
+def _rank_request(shape, steps):
+    return 'gtaranks R %s %s %s' % (frac(1e-10), plist(shape), plist(steps, lambda nys: plist(nys, lambda p: '%s %s' % (frac(p[0]), frac(p[1])))))
 
 
 def greedy_checks(ctx):
@@ -991,7 +995,7 @@ def greedy_checks(ctx):
         shape = tuple(int(rng.integers(1, 7)) for _ in range(d))
         ranks = tuple(int(rng.integers(1, n + 1)) for n in shape)
         cases.append((shape, ranks, int(rng.integers(2, 7)), int(rng.integers(-3, 1))))
-    # the same family at large magnitude: recorded finding `gta-skip-threshold-absolute`
+    # the same family at large magnitude: repaired finding `gta-skip-threshold-absolute` (2f34e7d)
     for _ in range(25 if quick else 250):
         d = int(rng.integers(2, 4))
         shape = tuple(int(rng.integers(1, 7)) for _ in range(d))
@@ -1023,10 +1027,9 @@ def greedy_checks(ctx):
         ctx.case(('gta', shape, ranks, R, sc, ci), nontrivial=exhausted)
         ctx.count('gta exhausted-mode cases' if exhausted else 'gta generic cases')
         ngta += 1
-        steps, sim_ranks, zero_appended = _replay_gta_bases(rec) if rec else ([], [1] * len(shape), False)
-        # failures of the property are attributed to the recorded finding only if the control flow is the modelled one
-        # (skip iff ny < 1e-14) and a direction with ny <= 1e-10*||v|| was appended; anything else is a new violation
-        key = 'gta-skip-threshold-absolute' if zero_appended else 'greedy:gta'
+        steps, sim_ranks = _replay_gta_bases(rec) if rec else ([], [1] * len(shape))
+        # `gta-skip-threshold-absolute` is the key of the repaired finding (2f34e7d): large-magnitude family
+        key = 'gta-skip-threshold-absolute' if sc >= 3 else 'greedy:gta'
         if st == 'timeout':
             ctx.violation(key, 'gta did not terminate within %g s' % LIMIT, replay, True)
             ntimeouts += 1
@@ -1039,12 +1042,11 @@ def greedy_checks(ctx):
         errs = [float(e) for e in errs]
         act_ranks = [int(U.shape[1]) for U in T.Us]
         problems = []
-        if all(np.isfinite(n) for nys in steps for n in nys):
-            greq.append('gtaranks %s %s %s' % (frac(1e-14), plist([1] * len(shape)), plist(steps, lambda nys: plist(nys, frac))))
+        if all(np.isfinite(n) for nys in steps for p in nys for n in p):
+            greq.append(_rank_request(shape, steps))
             gexp.append(plist(act_ranks)); gmeta.append(replay)
         if act_ranks != sim_ranks:
-            key = 'greedy:gta'
-            problems.append('ranks %s differ from the skip rule `ny < 1e-14` replayed on the same als1 outputs (%s): the basis '
+            problems.append('ranks %s differ from the skip rule `ny <= 1e-10*||v|| or complete basis` replayed on the same als1 outputs (%s): the basis '
                             'extension does not follow the modelled control logic' % (act_ranks, sim_ranks))
         if not all(np.isfinite(errs)):
             problems.append('non-finite error history')
@@ -1066,16 +1068,6 @@ def greedy_checks(ctx):
             replay['errors'] = errs
             ctx.violation(key, 'gta on a %s tensor of multilinear rank %s with R=%d: %s' % ('x'.join(map(str, shape)), ranks, R, '; '.join(problems)),
                           replay, True)
-    # the skip rule of the basis extension: Lean model (gtaExtend) replayed on the recorded norms vs the ranks gta returned
-    got = ctx.model('drv_c18', greq)
-    nd = 0
-    for r, e, g, m in zip(greq, gexp, got, gmeta):
-        if e != g:
-            nd += 1
-            ctx.violation('ten-corr:gtaranks', 'ranks returned by gta (%s) differ from the modelled skip rule (%s)' % (e, g),
-                          {'request': r[:3000], 'implementation': e, 'model': g, 'case': m}, True)
-    ctx.obligation('correspondence stream greedy: %d gta runs, ranks == gtaExtend skip rule replayed on the recorded norms' % len(greq),
-                   nd == 0, '%d disagreements' % nd)
     # grou: canonical rank below R
     for _ in range(12 if quick else 120):
         d = int(rng.integers(2, 4))
@@ -1120,13 +1112,30 @@ def greedy_checks(ctx):
         seed = int(rng.integers(0, 2 ** 31))
         replay = {'function': 'gta_ls', 'A': [[m.toarray().tolist() for m in t] for t in Aop], 'F': F.tolist(), 'R': R, 'np.random.seed': seed}
         np.random.seed(seed)
-        st, val = _with_time_limit(LIMIT, lambda: tensor.gta_ls(Aop, tensor.TuckerTensor.from_tensor(F), R, tol=1e-10))
+        rec = []
+        orig_ls = tensor.als1_ls
+
+        def rec_ls(*a, **k):
+            r = orig_ls(*a, **k)
+            rec.append([np.array(x, dtype=float) for x in r])
+            return r
+        tensor.als1_ls = rec_ls
+        try:
+            st, val = _with_time_limit(LIMIT, lambda: tensor.gta_ls(Aop, tensor.TuckerTensor.from_tensor(F), R, tol=1e-10))
+        finally:
+            tensor.als1_ls = orig_ls
         ctx.case(('gta_ls', shape, R), nontrivial=exhausted); ctx.count('gta_ls exhausted-mode cases' if exhausted else 'gta_ls generic cases')
         if st != 'ok':
             ctx.violation(key, 'gta_ls on shape %s with R=%d %s' % (shape, R, 'did not terminate within %g s' % LIMIT if st == 'timeout'
                           else 'raised %s: %s' % (type(val).__name__, str(val)[:80])), replay, True); continue
         UX = val
         problems = []
+        steps, sim_ranks = _replay_gta_bases(rec) if rec else ([], [1] * len(shape))
+        act_ranks = [int(U.shape[1]) for U in UX.Us]
+        if all(np.isfinite(n) for nys in steps for p in nys for n in p):
+            greq.append(_rank_request(shape, steps)); gexp.append(plist(act_ranks)); gmeta.append(replay)
+        if act_ranks != sim_ranks:
+            problems.append('ranks %s differ from the replayed skip rule (%s)' % (act_ranks, sim_ranks))
         sol = np.asarray(UX.asarray())
         if not np.all(np.isfinite(sol)):
             problems.append('non-finite solution')
@@ -1140,4 +1149,14 @@ def greedy_checks(ctx):
                 problems.append('complete bases but residual %.2e' % res)
         if problems:
             ctx.violation(key, 'gta_ls on shape %s with R=%d: %s' % (shape, R, '; '.join(problems)), replay, True)
+    # the skip rule of the basis extension: Lean model (gtaExtend) replayed on the recorded norms vs the ranks gta returned
+    got = ctx.model('drv_c18', greq)
+    nd = 0
+    for r, e, g, m in zip(greq, gexp, got, gmeta):
+        if e != g:
+            nd += 1
+            ctx.violation('ten-corr:gtaranks', 'ranks returned by gta/gta_ls (%s) differ from the modelled skip rule (%s)' % (e, g),
+                          {'request': r[:3000], 'implementation': e, 'model': g, 'case': m}, True)
+    ctx.obligation('correspondence stream greedy: %d gta / gta_ls runs, ranks == gtaExtend skip rule replayed on the recorded norms' % len(greq),
+                   nd == 0, '%d disagreements' % nd)
     ctx.extra['greedy_cases (numerical evidence, time limit %gs per case)' % LIMIT] = ngta
